@@ -1637,12 +1637,21 @@ class TimePoint:
             # Have sliced attr string to remove leading underscore
         return props
 
+    def _normalised(self) -> "TimePoint":
+        """Return this (non-truncated) TimePoint with the 24:00 end-of-day
+        form expressed as 00:00 on the next day."""
+        if self._hour_of_day != CALENDAR.HOURS_IN_DAY:
+            return self
+        new = self._copy()
+        new._tick_over()
+        return new
+
     def __hash__(self) -> int:
         if self._truncated:
             # TODO: Convert truncated TimePoints to UTC when not buggy
             return hash(
                 tuple(getattr(self, attr) for attr in self.__slots__))
-        point = self.to_utc()
+        point = self.to_utc()._normalised()
         return hash((*point.get_calendar_date(),
                      *point.get_hour_minute_second()))
 
@@ -1669,7 +1678,8 @@ class TimePoint:
                 if self_attr != other_attr:
                     return _operator_map[op](self_attr, other_attr)
             return True
-        other = other.to_time_zone(self._time_zone)
+        other = other.to_time_zone(self._time_zone)._normalised()
+        self = self._normalised()
         if self.get_is_calendar_date():
             my_date = self.get_calendar_date()
             other_date = other.get_calendar_date()
@@ -1699,7 +1709,8 @@ class TimePoint:
         if isinstance(other, TimePoint):
             if other > self:
                 return -1 * (other - self)
-            other = other.to_time_zone(self._time_zone)
+            other = other.to_time_zone(self._time_zone)._normalised()
+            self = self._normalised()
             my_year, my_day_of_year = self.get_ordinal_date()
             other_year, other_day_of_year = other.get_ordinal_date()
             diff_day = my_day_of_year - other_day_of_year
